@@ -4,6 +4,7 @@ the concatenated curve (knots of A without its last `degree+1` copies followed b
 followed by those of B), and that concatenated curve restricts to A on A's half-open interval and to B on B's.
 -/
 import NurbsVerif.Props.C07Split
+import NurbsVerif.Proofs.WindowEnd
 
 namespace NV
 open Finset
@@ -101,7 +102,8 @@ end NV
 namespace NV
 open Finset
 
-/-- **C07 (join, equal degrees, polynomial): the concatenated curve restricts to both operands**, and `A | B` is the
+/-- **C07 (join, equal degrees, polynomial): the concatenated curve restricts to both operands** (A on its half-open
+interval, B on its closed interval), and `A | B` is the
 junction-cleaning (`knot_clean` at the meeting parameter, tolerance 1e-9) of that curve. -/
 theorem C07_join_concat (a b J : Curve) (pa pb : List Vec) (d : Nat)
     (hPa : a.P = some pa) (hPb : b.P = some pb) (hWa : a.W = none) (hWb : b.W = none)
@@ -112,7 +114,7 @@ theorem C07_join_concat (a b J : Curve) (pa pb : List Vec) (d : Nat)
     ∃ cc : Curve, J = Curve.knotClean cc (some [nth b.kv.v 0]) tol9
       ∧ cc.kv.v = a.kv.v.take a.kv.npts ++ b.kv.v ∧ cc.P = some (pa ++ pb) ∧ cc.W = none
       ∧ (∀ u, a.kv.umin ≤ u → u < a.kv.umax → cc.eval u = a.eval u)
-      ∧ (∀ u, b.kv.umin ≤ u → u < b.kv.umax → cc.eval u = b.eval u) := by
+      ∧ (∀ u, b.kv.umin ≤ u → u ≤ b.kv.umax → cc.eval u = b.eval u) := by
   unfold Curve.join at h
   simp only [bind, Except.bind, pure, Except.pure] at h
   split at h
@@ -212,29 +214,25 @@ theorem C07_join_concat (a b J : Curve) (pa pb : List Vec) (d : Nat)
             gA.ord.mono gA.ord.le_umax hlenA fA (by rw [fL]; omega) hQ hs1 hs2 hin'
           rw [hkdeg, ← hw, coordCol_append, List.drop_zero,
             List.take_left' (by simp [coordCol, hla])]
-        · -- B's interval
+        · -- B's interval (closed: the right end of B is the right end of the concatenated curve)
           intro u hu1 hu2
           have huN : cc.kv.umin ≤ u ∧ u ≤ cc.kv.umax := by
             rw [hcck, huminN, humaxN]
-            exact ⟨le_trans hamono (by rw [hjoin]; exact hu1), le_of_lt hu2⟩
+            exact ⟨le_trans hamono (by rw [hjoin]; exact hu1), hu2⟩
           obtain ⟨v1, e1, l1, c1⟩ := eval_coords cc (pa ++ pb) d u hccP hccW hlenP hdimP (by rw [hcck]; exact hwfN)
             (by rw [hcck]; exact hsepN) huN
-          obtain ⟨v2, e2, l2, c2⟩ := eval_coords b pb d u hPb hWb hlb hdb hwb hsepB ⟨hu1, le_of_lt hu2⟩
+          obtain ⟨v2, e2, l2, c2⟩ := eval_coords b pb d u hPb hWb hlb hdb hwb hsepB ⟨hu1, hu2⟩
           rw [e1, e2]
           congr 1
           apply vec_ext_getD _ _ (by rw [l1, l2])
           intro j
           rw [c1 j, c2 j, hcck]
-          obtain ⟨sz', hs1, hs2, hin⟩ := exists_span b.kv gB u ⟨hu1, le_of_lt hu2⟩
-          have hin' : nth b.kv.v sz' ≤ u ∧ u < nth b.kv.v (sz' + 1) := by
-            rcases hin with hh | ⟨hh, _⟩
-            · exact hh
-            · exfalso; rw [hh] at hu2; exact lt_irrefl _ hu2
+          obtain ⟨sz', hs1, hs2, hin⟩ := exists_span b.kv gB u ⟨hu1, hu2⟩
           have hQ : (coordCol (pa ++ pb) j).length = newk.npts := by simp [coordCol, hla, hlb, hnptsN]
           rw [← hdeg] at hs1 hlenB
-          have hw := window_eval newk.v b.kv.v newk.umax b.kv.umax newk.npts b.kv.npts a.kv.deg a.kv.npts
+          have hw := window_eval_closed newk.v b.kv.v newk.umax b.kv.umax newk.npts b.kv.npts a.kv.deg a.kv.npts
             (coordCol (pa ++ pb) j) u sz' gN.ord.mono gN.ord.le_umax (by rw [← hkdeg]; exact hlenN)
-            gB.ord.mono gB.ord.le_umax hlenB fB (le_of_eq fL.symm) hQ hs1 hs2 hin'
+            gB.ord.mono gB.ord.le_umax hlenB fB (le_of_eq fL.symm) hQ hs1 hs2 hin (fun _ => humaxN)
           rw [hkdeg, ← hdeg, ← hw, coordCol_append,
             List.drop_left' (by simp [coordCol, hla]), List.take_of_length_le (by simp [coordCol, hlb])]
 
